@@ -29,7 +29,7 @@
      of the multiset of training transactions: shape of the tree, file names, order do not matter),
      C15_training_arrival_irrelevant, C15_training_cycle_is_error / _bad_file_is_error (exit 1, nothing
      printed), C15_training_without_includes / _tree_as_one_file (it is the one-file command), and the
-     theorems of the one-file command restated (C15_fs_*).
+     theorems of the one-file command restated under the names C15_fs_xxx.
    Meanings and gaps: Spec/FormatSpec.v; relations: Proofs/InferProofs.v
      side_rel ph v cands acc acc' other : acc' = acc if acc is not the placeholder; otherwise
         acc' is a candidate different from [other] (Macro = false), or there is no such
